@@ -354,7 +354,9 @@ def curated() -> Dict[str, World]:
     W["ifcreate"] = World(
         "ifcreate", {"f": ["0", "1"], "u": ["0", "1"]},
         {"t.do": [S(ifcreate=["f"], deps=["u2"])], "u2.do": [S(deps=["u"])]},
-        ["t", "u2"], ["t"], absent=["f"])
+        ["t", "u2"], ["t"], absent=["f"],
+        # the watched path was there (and depended on), went away (and is watched for), ...
+        prefixes=[[["edit", "f", "0"], ["ifchange", ["t"]], ["rm", "f"], ["ifchange", ["t"]]]])
     W["ifcreate-link"] = World(   # the watched path is a symbolic link whose target does not exist yet (a dangling link is "absent")
         "ifcreate-link", {"f": ["0", "1"], "u": ["0", "1"]},
         {"t.do": [S(ifcreate=["f"], deps=["u2"])], "u2.do": [S(deps=["u"])]},
